@@ -17,6 +17,8 @@ Decided (ordering / dataflow origin rules on Encoder::{new,encode,finalize_inner
   C09.count   Counter / CrcWriter account the bytes the inner stream reported: seek point byte offsets and frame sizes
   C09.len     the declared total of the byte / sample writers is converted by exact division (channels, bytes per sample)
   C09.cast    no unaudited narrowing cast in encode.rs / lib.rs (sample counts and offsets must use try_from)
+  C09.md5     (also) a function that both hashes samples and fills the frame to encode takes both from the same stretch of its buffer
+  C09.blocks  write_blocks passes the caller's block list through no selecting adaptor (taken from C11.frame): both writes of the metadata have one length
 Not decided: numeric truth of the fields for a given input.
 """
 from rules.common import *
